@@ -101,7 +101,10 @@ func genParams(r *lib.Rand) []AssetP {
 		if tl {
 			p.PeriodMs = r.Range(20, 90) * 1000
 			p.Tbl = r.Range(limit/4, limit)
-			if r.Chance(1, 8) {
+			switch r.Weighted(4, 3, 1) {
+			case 1: // a time-based limit that binds long before the total limit
+				p.Tbl = r.Range(limit/8, limit/3)
+			case 2:
 				p.Tbl = limit
 			}
 		}
@@ -649,6 +652,18 @@ type result struct {
 	kind string // ok / rej / abort
 	idx  int    // table index concerned (-1 for adv)
 	desc string
+	err  string
+}
+
+// why classifies a rejection by the module's error text (statistics only, never compared)
+func why(err string) string {
+	for _, k := range []string{"time-based", "supply limit", "available supply", "insufficient", "already exists", "not open",
+		"invalid secret", "timestamp", "unknown HTLC", "module account", "time lock", "deputy", "amount", "asset"} {
+		if strings.Contains(err, k) {
+			return strings.ReplaceAll(k, " ", "-")
+		}
+	}
+	return "other"
 }
 
 func (w *world) apply(st Step) result {
@@ -663,9 +678,10 @@ func (w *world) apply(st Step) result {
 				code = 2
 				w.note("begin block aborted at height %d: %s", e.Height, o.Err)
 			}
+			w.checkRefundEvents(o)
 			dts = append(dts, hz64(d*1000000))
 		}
-		return result{lib.App("CAdv", lib.L(dts...)), code, "ok", -1, fmt.Sprintf("adv %d blocks -> height %d", len(st.DtsMs), e.Height)}
+		return result{lib.App("CAdv", lib.L(dts...)), code, "ok", -1, fmt.Sprintf("adv %d blocks -> height %d", len(st.DtsMs), e.Height), ""}
 	case "create":
 		p, ts := w.createPre(st, e.Time)
 		idx := w.intern(p)
@@ -690,7 +706,7 @@ func (w *world) apply(st Step) result {
 		}
 		term := lib.App("CCreate", lib.Z(int64(idx)), lib.App("mkCreate", lib.Z(int64(st.Sender)), lib.Z(int64(st.To)), coqCoins(st.Amount),
 			lib.Pair(lib.Z(p.secret), hz64(p.lockTs)), hz64(ts), lib.Z(st.Lock), lib.B(st.Transfer)))
-		return result{term, o.Code(), o.Kind, idx, fmt.Sprintf("h%d create#%d %s %d->%d %v lock %d ts %d lockmode %d -> %s %s", e.Height, idx, kind, st.Sender, st.To, st.Amount, st.Lock, ts, st.LockMode, o.Kind, short(o.Err))}
+		return result{term, o.Code(), o.Kind, idx, fmt.Sprintf("h%d create#%d %s %d->%d %v lock %d ts %d lockmode %d -> %s %s", e.Height, idx, kind, st.Sender, st.To, st.Amount, st.Lock, ts, st.LockMode, o.Kind, short(o.Err)), o.Err}
 	case "claim":
 		idx, ok := w.tagIdx[st.Tag]
 		if !ok {
@@ -707,9 +723,50 @@ func (w *world) apply(st Step) result {
 			w.note("claim aborted: %s", o.Err)
 		}
 		return result{lib.App("CClaim", lib.Z(int64(st.Who)), lib.Z(int64(idx)), lib.Z(int64(st.Secret))), o.Code(), o.Kind, idx,
-			fmt.Sprintf("h%d claim#%d by %d secret %d -> %s %s", e.Height, idx, st.Who, st.Secret, o.Kind, short(o.Err))}
+			fmt.Sprintf("h%d claim#%d by %d secret %d -> %s %s", e.Height, idx, st.Who, st.Secret, o.Kind, short(o.Err)), o.Err}
 	}
 	panic("unknown step kind " + st.Kind)
+}
+
+// checkRefundEvents: the refund events of a begin block name exactly the contracts that this
+// block refunded (state Refunded, closed at this height), each once.
+func (w *world) checkRefundEvents(o lib.Outcome) {
+	got := map[int]int{}
+	for _, ev := range o.Event {
+		if ev.Type != htlctypes.EventTypeRefundHTLC {
+			continue
+		}
+		for _, a := range ev.Attributes {
+			if a.Key == htlctypes.AttributeKeyID {
+				idx, ok := w.idxOf[strings.ToLower(a.Value)]
+				if !ok {
+					w.note("refund event for an id nobody created: %s", a.Value)
+					continue
+				}
+				got[idx]++
+			}
+		}
+	}
+	want := map[int]bool{}
+	for idx, exp := range w.expOf {
+		if exp != w.e.Height && got[idx] == 0 {
+			continue
+		}
+		resp, err := w.k.HTLC(w.e.Ctx, &htlctypes.QueryHTLCRequest{Id: w.realID[idx]})
+		if err == nil && resp.Htlc != nil && resp.Htlc.State == htlctypes.Refunded && int64(resp.Htlc.ClosedBlock) == w.e.Height {
+			want[idx] = true
+		}
+	}
+	for idx, n := range got {
+		if n != 1 || !want[idx] {
+			w.note("height %d: %d refund event(s) for contract %d, refunded in this block: %v", w.e.Height, n, idx, want[idx])
+		}
+	}
+	for idx := range want {
+		if got[idx] == 0 {
+			w.note("height %d: contract %d refunded without a refund event", w.e.Height, idx)
+		}
+	}
 }
 
 func (w *world) addr(i int) string {
@@ -947,6 +1004,11 @@ func exec(h History) lib.Case {
 		switch st.Kind {
 		case "adv":
 			lib.Stat(c.Stats, "op:adv")
+			if r.code == 0 {
+				lib.Stat(c.Stats, "res:ok")
+			} else {
+				lib.Stat(c.Stats, "res:abort")
+			}
 			c.Stats["blocks"] += len(st.DtsMs)
 		case "create":
 			kind := "plain"
@@ -957,6 +1019,8 @@ func exec(h History) lib.Case {
 			lib.Stat(c.Stats, "res:"+r.kind)
 			if r.code == 0 {
 				lib.Stat(c.Stats, "ok:create-"+kind)
+			} else {
+				lib.Stat(c.Stats, "rej-create:"+why(r.err))
 			}
 		case "claim":
 			lib.Stat(c.Stats, "op:claim")
@@ -964,6 +1028,8 @@ func exec(h History) lib.Case {
 			if r.code == 0 {
 				closedIn[r.idx] = true
 				lib.Stat(c.Stats, "ok:claim")
+			} else {
+				lib.Stat(c.Stats, "rej-claim:"+why(r.err))
 			}
 			if x, ok := w.expOf[r.idx]; ok && e.Height >= x-1 && e.Height <= x+1 {
 				nearExpiry = true
